@@ -214,7 +214,7 @@ zgsrfs(trans_t trans, SuperMatrix *A, SuperMatrix *L, SuperMatrix *U,
 	*(unsigned char *)transc = 'N';
         transt = TRANS;
     } else {
-	*(unsigned char *)transc = 'T';
+	*(unsigned char *)transc = (trans == CONJ) ? 'C' : 'T';
 	transt = NOTRANS;
     }
 
